@@ -26,7 +26,6 @@ func (flavor) Impl(ops []lc.Op, obs []lc.StepObs) string {
 	return strings.Join(parts, " ")
 }
 
-
 // Oracle evaluates the property on the implementation's own observations: the harness keeps
 // the last accepted configuration (spec state) and demands after every operation that the
 // config read back is that configuration and that exactly its listeners hold sockets and
